@@ -657,6 +657,91 @@ theorem dev_unscoped_qualifier :
           !(Assemble.stmtRead g).contains (.ds (tbl "foo")) && (Assemble.stmtRead g).contains (.ds (tbl "bar"))
       | .error _ => false) = true := by decide +kernel
 
+
+/-! #### the summary roles along the paths of a whole script -/
+
+/-- the holder of a statement of one of the three fragments is well-formed (from the exact edge descriptions of
+    `Proofs/ColumnsExact.lean`) -/
+theorem stmtOK_wf (env : Env) (silent : Bool) (s : Stmt) (hp : env.prov.truthy = false) (h : StmtOK env s) (g : LGraph)
+    (hg : analyze env silent s = .ok g) : WF g := by
+  rcases h with ⟨h1 | h1, _⟩ | ⟨h1, _⟩
+  · obtain ⟨g', hg', hE⟩ := analyze_exact env silent s hp h1
+    rw [hg] at hg'; cases hg'; exact hE.wf
+  · obtain ⟨g', hg', hE⟩ := analyze_exact_cols env silent s hp h1
+    rw [hg] at hg'; cases hg'; exact hE.wf
+  · obtain ⟨g', hg', hE⟩ := analyze_exact_setop env silent s hp h1
+    rw [hg] at hg'; cases hg'; exact hE.wf
+
+theorem stmtOK_prov (env : Env) (pv : ProvView) (s : Stmt) (h : StmtOK env s) : StmtOK { env with prov := pv } s := by
+  unfold StmtOK at *
+  rw [fragStmt_prov, fragStmtCols_prov, fragStmtSetop_prov, stmtScoped_prov, stmtScopedSetop_prov]
+  exact h
+
+theorem analyzeAll_wf (c : Runner.Config) : ∀ (ss : List Stmt) (p p' : Runner.Provider) (hs : List LGraph),
+    p.base = [] → (∀ s ∈ ss, StmtOK (envOf c ⟨[], []⟩) s) →
+    Runner.analyzeAll c p ss = .ok (p', hs) → ∀ h ∈ hs, WF h
+  | [], p, p', hs, _, _, he => by
+    simp only [Runner.analyzeAll, Except.ok.injEq, Prod.mk.injEq] at he
+    obtain ⟨_, rfl⟩ := he
+    simp
+  | s :: r, p, p', hs, hb, hfrag, he => by
+    have hpt : (envOf c p).prov.truthy = false := by simp [envOf, Runner.Provider.view, hb]
+    have hsw : envOf c p = { envOf c ⟨[], []⟩ with prov := p.view } := rfl
+    have hok : StmtOK (envOf c p) s := by rw [hsw]; exact stmtOK_prov _ _ s (hfrag s (by simp))
+    cases hg : analyze (envOf c p) c.silent s with
+    | error e =>
+      unfold envOf at hg
+      simp only [Runner.analyzeAll, hg] at he
+      cases he
+    | ok g =>
+      have hwf := stmtOK_wf (envOf c p) c.silent s hpt hok g hg
+      unfold envOf at hg
+      simp only [Runner.analyzeAll, hg] at he
+      cases hrec : Runner.analyzeAll c (Runner.register p g) r with
+      | error e => rw [hrec] at he; cases he
+      | ok res =>
+        obtain ⟨p2, hs2⟩ := res
+        rw [hrec] at he
+        simp only [Except.ok.injEq, Prod.mk.injEq] at he
+        obtain ⟨rfl, rfl⟩ := he
+        have hall := analyzeAll_wf c r _ _ _ (by rw [register_base]; exact hb) (fun x hx => hfrag x (by simp [hx])) hrec
+        intro h hh
+        rcases List.mem_cons.mp hh with rfl | hh
+        · exact hwf
+        · exact hall h hh
+
+/-- **script level, the property's wording**: for a script of statements of the three write fragments (qualifiers in scope, no
+    metadata, no unresolved column edge left), run by the model of `LineageRunner._eval`: along every reported column path, for every
+    hop between table-owned columns, the table owning the source column is a SOURCE or INTERMEDIATE table of the script's summary,
+    the table owning the target column is a TARGET or INTERMEDIATE table, and the table graph has the edge between the two -/
+theorem script_path_roles_flat_partial (c : Runner.Config) (ss : List Stmt) (g : LGraph) (hs : List LGraph)
+    (hfrag : ∀ s ∈ ss, StmtOK (envOf c ⟨[], []⟩) s)
+    (hun : ∀ gf, Assemble.foldAll id Graph.empty hs = .ok gf → Assemble.unresolved (Assemble.tagSelfloops gf) = [])
+    (he : Runner.eval c [] ss = .ok (g, hs))
+    (p : List Node) (hp : p ∈ columnLineage g) (l : List Node) (a b : Node) (r : List Node) (hsplit : p = l ++ a :: b :: r)
+    (d T : DS) (hd : DsEdge a b d T) :
+    (Node.ds d, Node.ds T) ∈ (Assemble.tableGraph g).edges ∧
+    (Node.ds d ∈ Assemble.sourceTables g ∨ Node.ds d ∈ Assemble.intermediateTables g) ∧
+    (Node.ds T ∈ Assemble.targetTables g ∨ Node.ds T ∈ Assemble.intermediateTables g) := by
+  have hproj := script_projects_flat_partial c ss g hs hfrag hun he
+  have hwf : WF g := by
+    unfold Runner.eval at he
+    cases ha : Runner.analyzeAll c ⟨[], []⟩ ss with
+    | error e => rw [ha] at he; cases he
+    | ok res =>
+      obtain ⟨p', hs'⟩ := res
+      rw [ha] at he
+      simp only at he
+      cases hb : Assemble.build p'.asmView hs' with
+      | error e => rw [hb] at he; cases he
+      | ok g' =>
+        rw [hb] at he
+        simp only [Except.ok.injEq, Prod.mk.injEq] at he
+        obtain ⟨rfl, rfl⟩ := he
+        exact build_wf _ _ _ (analyzeAll_wf c ss _ _ _ rfl hfrag ha) hb
+  exact ⟨path_hops_project_partial g hproj p hp l a b r hsplit d T hd,
+    path_hop_roles_partial g hproj hwf p hp l a b r hsplit d T hd⟩
+
 end projection
 
 end SqlLineage.Props.C06
